@@ -87,6 +87,7 @@ PURE = [
     r"default::Default>::default$|<impl (std|core)::default::Default for (f64|usize|bool|u\d+|i\d+|isize)>::default$",
     r"convert::(From|Into|AsRef|AsMut)<.*>>::(from|into|as_ref|as_mut)$",
     r"convert::num::<impl (std|core)::convert::(From|TryFrom)<.*> for .*>::(from|try_from)$",
+    r"convert::num::\w+::<impl (std|core)::convert::(From|TryFrom)<.*> for .*>::(from|try_from)$",
     r"mem::(swap|replace|take|size_of|size_of_val|align_of|drop|discriminant)$",
     r"(std|core)::ops::(Fn|FnMut|FnOnce)(<.*>)?::call(_mut|_once)?$",
     r"ops::(Deref|DerefMut)>::deref(_mut)?$|ops::(Deref|DerefMut)::deref(_mut)?$",
@@ -132,6 +133,8 @@ def strip_all_turbofish(n):
             while j < len(n):
                 if n[j] == "<":
                     depth += 1
+                elif n[j] == ">" and n[j - 1] == "-":
+                    pass  # `->` in a fn type
                 elif n[j] == ">":
                     depth -= 1
                     if depth == 0:
